@@ -1,6 +1,7 @@
 package vchain
 
 import (
+	"bytes"
 	"crypto/sha256"
 	"encoding/json"
 	"fmt"
@@ -20,6 +21,7 @@ import (
 	"github.com/nspcc-dev/neo-go/pkg/core/storage"
 	"github.com/nspcc-dev/neo-go/pkg/core/transaction"
 	"github.com/nspcc-dev/neo-go/pkg/crypto/keys"
+	"github.com/nspcc-dev/neo-go/pkg/encoding/bigint"
 	"github.com/nspcc-dev/neo-go/pkg/io"
 	"github.com/nspcc-dev/neo-go/pkg/neotest"
 	"github.com/nspcc-dev/neo-go/pkg/neotest/chain"
@@ -389,8 +391,11 @@ func (p *Producer) freeUser() *User {
 	return nil
 }
 
-var keyUniverse = [][]byte{[]byte("a"), []byte("ab"), []byte("abc"), []byte("ab\x00"), []byte("ab\xff"), []byte("ac"), []byte("b"), {0}, {0xff}, {0xff, 0xff}, []byte("k0"), []byte("k1"), []byte("k2"), []byte("k3"), []byte("kkkkkkkkkkkkkkkkkkkkkkkkkkkkkkkkkkkkkkkk")}
+var keyUniverse = [][]byte{[]byte("a"), []byte("ab"), []byte("abc"), []byte("ab\x00"), []byte("ab\xff"), []byte("ac"), []byte("b"), {0}, {0xff}, {0xff, 0xff}, []byte("k0"), []byte("k1"), []byte("k2"), []byte("k3"), []byte("kkkkkkkkkkkkkkkkkkkkkkkkkkkkkkkkkkkkkkkk"), bytes.Repeat([]byte("L"), 63), bytes.Repeat([]byte("M"), 64)}
 var valUniverse = [][]byte{[]byte("1"), []byte("2"), {}, []byte("same"), []byte("same"), []byte("a-longer-value-a-longer-value-a-longer-value")}
+
+// KeyUniverse returns the storage keys the helper contract plans draw from.
+func KeyUniverse() [][]byte { return keyUniverse }
 
 // Plan generates a random plan for the helper contract's Run method.
 func (p *Producer) Plan(maxSteps int, allowFail bool) []any {
@@ -409,6 +414,8 @@ func (p *Producer) Plan(maxSteps int, allowFail bool) []any {
 			plan = append(plan, []any{6, keyUniverse[r.Intn(3)]})
 		case x < 19 && allowFail:
 			plan = append(plan, []any{4})
+		case x < 20 && r.Intn(3) == 0:
+			plan = append(plan, []any{0, keyUniverse[len(keyUniverse)-1-r.Intn(3)], valUniverse[r.Intn(len(valUniverse))]})
 		default:
 			plan = append(plan, []any{0, []byte(fmt.Sprintf("k%d", r.Intn(4))), []byte{byte(r.Intn(3))}})
 		}
@@ -571,6 +578,14 @@ func (p *Producer) opCandidate() *transaction.Transaction {
 	}
 	if u.Candidate && p.R.Intn(3) != 0 {
 		return p.Call("unregister-candidate", []neotest.Signer{u.S}, p.NeoH, "unregisterCandidate", u.Acc.PublicKey().Bytes())
+	}
+	if p.R.Intn(3) == 0 {
+		// registration by payment: GAS sent to the NEO contract with the key as data
+		price := int64(1000_0000_0000)
+		if v := p.BC.GetStorageItem(nativeids.NeoToken, []byte{13}); v != nil {
+			price = bigint.FromBytes(v).Int64()
+		}
+		return p.Call("register-candidate-by-payment", []neotest.Signer{u.S}, p.GasH, "transfer", u.Hash(), p.NeoH, price, u.Acc.PublicKey().Bytes())
 	}
 	return p.Call("register-candidate", []neotest.Signer{u.S}, p.NeoH, "registerCandidate", u.Acc.PublicKey().Bytes())
 }
